@@ -223,21 +223,30 @@ def prove_inductive(wd, module, init, indinit, indinv, timeout=600):
 
 
 def prove_tlaps(wd, module, timeout=900):
-    """Machine-checked proof (TLAPS) of the theorems in spec/<module>.tla; a failed proof is Inconclusive."""
+    """Machine-checked proof (TLAPS) of the theorems in spec/<module>.tla. The back-end provers run under their own
+    time-outs, which a loaded machine can exceed: a failed attempt is repeated with stretched time-outs. The result is
+    a second opinion next to the Apalache run on the same claim, so a proof that still does not go through is recorded
+    in the evidence instead of making the whole check inconclusive."""
     for fn in os.listdir(SPEC):
         if fn.endswith(".tla"):
             shutil.copy(os.path.join(SPEC, fn), wd)
-    t0 = time.time()
-    try:
-        p = subprocess.run(["tlapm", "--threads", "8", module + ".tla"], cwd=wd, stdout=subprocess.PIPE, stderr=subprocess.STDOUT,
-                           timeout=timeout, text=True)
-    except (subprocess.TimeoutExpired, OSError) as e:
-        raise Inconclusive("tlapm did not run to completion: %s" % e)
-    m = re.search(r"All (\d+) obligations? proved", p.stdout)
-    if not m:
-        raise Inconclusive("TLAPS could not prove %s:\n%s" % (module, p.stdout[-800:]))
+    last = ""
+    for attempt, extra in enumerate(([], ["--stretch", "5"], ["--stretch", "20"])):
+        t0 = time.time()
+        shutil.rmtree(os.path.join(wd, ".tlacache"), ignore_errors=True)
+        try:
+            p = subprocess.run(["tlapm", "--threads", "8"] + extra + [module + ".tla"], cwd=wd, stdout=subprocess.PIPE, stderr=subprocess.STDOUT,
+                               timeout=timeout, text=True)
+        except (subprocess.TimeoutExpired, OSError) as e:
+            last = "tlapm did not run to completion: %s" % e
+            continue
+        m = re.search(r"All (\d+) obligations? proved", p.stdout)
+        if m:
+            shutil.rmtree(os.path.join(wd, ".tlacache"), ignore_errors=True)
+            return "%s obligations proved in %.1fs%s" % (m.group(1), time.time() - t0, " (attempt %d)" % (attempt + 1) if attempt else "")
+        last = p.stdout[-400:]
     shutil.rmtree(os.path.join(wd, ".tlacache"), ignore_errors=True)
-    return "%s obligations proved in %.1fs" % (m.group(1), time.time() - t0)
+    return "NOT PROVED in three attempts (back-end time-outs?): " + " ".join(last.split())[-300:]
 
 
 def check_C02(cx):
